@@ -6,6 +6,12 @@ variant = sys.argv[2] if len(sys.argv) > 2 else ""
 p = [json.loads(l) for l in open('/verif/properties.jsonl') if json.loads(l)['id'] == pid][0]
 wt = f"/tmp/wt_{pid}{variant}"
 out = f"/tmp/seed_{pid}{variant}"
+import os
+_avoid = ""
+if variant and os.path.exists('/verif/tools/avoid.json'):
+    a = json.load(open('/verif/tools/avoid.json')).get(pid)
+    if a:
+        _avoid = f"\n\nOther people have already tried the following change(s) for this property, so they are taken - choose a DIFFERENT mechanism in a different function or file: {a}."
 print(f"""You are helping to evaluate a verification effort for the Rust project potassco/anthem (a translator from mini-gringo answer set programs to first-order theories, with simplifiers, TPTP output and prover-driven equivalence checking). You have your own scratch git worktree of the repository at {wt} . Work ONLY inside {wt} and {out} ; never read or modify /repo or /verif. The sandbox is offline: use `cargo ... --offline` (CARGO_NET_OFFLINE=true). Build output goes to {wt}/target by default, which is fine.
 
 Here is a semantic property that anthem is supposed to satisfy:
@@ -23,4 +29,4 @@ Deliver, in {out}/ :
   1. patch.diff — `git -C {wt} diff` of your change (source files only).
   2. a demonstration: either a new Rust integration test file (e.g. {out}/demo.rs, which you ran by temporarily copying it to {wt}/tests/ and then removed again from the worktree) or a small shell script {out}/demo.sh that builds/runs the anthem binary from {wt} on concrete inputs; it must FAIL (non-zero exit / failing test) with your change applied and PASS without it. Actually run it both ways and record the outputs in {out}/demo_output.txt .
   3. notes.md — which files/lines you changed, why the property breaks, what specific input/condition is needed to manifest it, and the exact commands you ran (including the test-suite result with the change applied).
-Leave the worktree with your change applied (uncommitted) and no other stray files in it. In your final message, summarise the change in 5-10 lines.""")
+Leave the worktree with your change applied (uncommitted) and no other stray files in it. In your final message, summarise the change in 5-10 lines.""" + _avoid)
